@@ -1,4 +1,5 @@
 import RzmqModel.Model.Wire
+import RzmqModel.Gen.Life
 /-!
 # M6 `Routing` — subscription trie, round-robin load balancer, ROUTER identity map, envelopes, back-off
 
@@ -347,7 +348,7 @@ def repReplyWire (pfx payload : List Frame) : List Frame :=
 /-- `ReconnectState::on_connection_failure` with `current_attempts = k`: `base · 2^min(k,31)`, capped by `max` if `max > 0`.
 (`Duration::saturating_mul` cannot saturate for i32-millisecond bases.) -/
 def coreDelay (base max k : Nat) : Nat :=
-  let d := base * 2 ^ (min k 31)
+  let d := base * 2 ^ (min k Gen.backoffPowerCap)
   if max > 0 then min d max else d
 
 /-- connecter (`transport/tcp.rs`): delay used for the wait before in-actor retry number `j` (j = 0 is the first
@@ -357,10 +358,17 @@ def connDouble (maxOpt : Option Nat) (base d : Nat) : Nat :=
   | some m => if d > 0 && m > 0 then min (2 * d) m else d
   | none => if d > 0 then base else d
 
-def connFastForward (maxOpt : Option Nat) (base inherited : Nat) : Nat :=
+/-- the delay the connecter starts from: RECONNECT_IVL, bounded by RECONNECT_IVL_MAX when that is set -/
+def connInitial (maxOpt : Option Nat) (base : Nat) : Nat :=
   match maxOpt with
-  | some m => if base > 0 && m > 0 then (List.range (min inherited 31)).foldl (fun d _ => min (2 * d) m) base else base
+  | some m => if Gen.connFirstDelayCapped == 1 && m > 0 then min base m else base
   | none => base
+
+def connFastForward (maxOpt : Option Nat) (base inherited : Nat) : Nat :=
+  let d0 := connInitial maxOpt base
+  match maxOpt with
+  | some m => if base > 0 && m > 0 then (List.range (min inherited 31)).foldl (fun d _ => min (2 * d) m) d0 else d0
+  | none => d0
 
 def connDelay (maxOpt : Option Nat) (base inherited : Nat) : Nat → Nat
   | 0 => connFastForward maxOpt base inherited
